@@ -31,6 +31,7 @@ func TestSimWorker(t *testing.T) {
 	// allocate megabytes with the GC switched off inside a run: every run
 	// starts after two GC cycles (empty pools, bounded heap).
 	core.GCBetween = true
+	core.PCTPercent, core.PCTSDPercent, core.SDPercent = 5, 5, 10
 	// Lazily initialised process state reached by the checks, warmed outside
 	// the bubble so that it adds no scheduling points to whichever run is first.
 	_ = ContextErr(context.Canceled)
